@@ -12,6 +12,8 @@ def lit(bs):
 
 def hash_tree(nodes, root, tbytes):
     """the value the generated functors compute, from the specification's tree (nodes as printed by TLC)"""
+    if root < 0:
+        return 0                                  # a default-constructed value (functor-less empty rule)
     n = nodes[root]
     if n['k'] == 0:
         return (tbytes[n['sym']] + 7 * n['line'] + 13 * n['col']) & M32      # the term's value and its source point
@@ -21,16 +23,22 @@ def hash_tree(nodes, root, tbytes):
     return h
 
 
-def tu(g, cases):
-    """g: gram.Grammar over single-character terms; cases: list of dict(bytes, ws, nl, ok, val)"""
+def tu(g, cases, dflt=()):
+    """g: gram.Grammar over single-character terms; cases: list of dict(bytes, ws, nl, ok, val); dflt: rules WITHOUT a functor
+    (the left-side value is constructed from the right-side values, in order)"""
     ntid = {n: i for i, n in enumerate(g.nts)}
     o = ['#include <ctpg/ctpg.hpp>', '#include <cstdio>', '#include <string>', 'using namespace ctpg;', 'using namespace ctpg::buffers;',
          'struct H { unsigned r; template<typename... A> constexpr unsigned operator()(A... a) const { unsigned h = r + 1u; ((h = h * 31u + unsigned((unsigned char)char(a))), ...); return h; } };',
          '// nonterminal values are unsigned, term values are chars: one overload set turns both into unsigned',
          'struct HF { unsigned r; template<typename... A> constexpr unsigned operator()(A... a) const { unsigned h = r + 1u; ((h = h * 31u + conv(a)), ...); return h; }',
-         '  static constexpr unsigned conv(unsigned v) { return v; } static constexpr unsigned conv(const term_value<char>& v) { return unsigned((unsigned char)v.get_value()) + 7u * unsigned(v.get_sp().line) + 13u * unsigned(v.get_sp().column); } };']
+         '  static constexpr unsigned conv(unsigned v) { return v; } static constexpr unsigned conv(const term_value<char>& v) { return unsigned((unsigned char)v.get_value()) + 7u * unsigned(v.get_sp().line) + 13u * unsigned(v.get_sp().column); } };',
+         '// the value type of the nonterminals: constructible from what a functor returns and - for rules without a functor - from',
+         '// the right-side values themselves, hashed in the order they are handed over',
+         'struct V { unsigned h = 0; constexpr V() = default; constexpr V(unsigned x) : h(x) {} constexpr V(const term_value<char>& a) : h(HF{~0u}(a)) {}',
+         '  template<typename A0, typename A1, typename... A> constexpr V(const A0& a0, const A1& a1, const A&... a) : h(HF{~0u}(a0, a1, a...)) {}',
+         '  constexpr operator unsigned() const { return h; } };']
     for i, n in enumerate(g.nts):
-        o.append('constexpr nterm<unsigned> n%d("N%d");' % (i, i))
+        o.append('constexpr nterm<V> n%d("N%d");' % (i, i))
     # terms without precedence / associativity at odd positions are written the implicit way: a character literal in
     # terms(...) and in the rules, no term object at all
     tname = {}
@@ -48,7 +56,7 @@ def tu(g, cases):
         r = 'n%d(%s)' % (ntid[l], args)
         if prec:
             r = '(%s[%d])' % (r, prec)
-        rl.append('        %s >= HF{%du}' % (r, ri))
+        rl.append('        %s' % r if ri in dflt else '        %s >= HF{%du}' % (r, ri))
     pdef = 'parser(n%d, terms(%s), nterms(%s), rules(\n%s\n    ))' % (ntid[g.root], ', '.join(tname[t] for t in g.ts),
                                                                    ', '.join('n%d' % i for i in range(len(g.nts))), ',\n'.join(rl))
     o.append('constexpr auto p = %s;' % pdef)
@@ -69,7 +77,7 @@ def tu(g, cases):
     o.append('#endif')
     o.append('int main() {')
     o.append('  auto* q = new auto(%s);  // the same parser, constructed at run time' % pdef)
-    o.append('  auto pr = [](int i, const char* how, const auto& r) { printf("%d %s %d %u\\n", i, how, int(r.has_value()), r.has_value() ? r.value() : 0u); };')
+    o.append('  auto pr = [](int i, const char* how, const auto& r) { printf("%d %s %d %u\\n", i, how, int(r.has_value()), r.has_value() ? unsigned(r.value()) : 0u); };')
     for i, c in enumerate(cases):
         L = lit(c['bytes'])
         n = len(c['bytes'])
